@@ -389,7 +389,15 @@ def stubs():
             return -1 if x < y else (1 if y < x else 0)
         return sorted(range(len(vals)), key=functools.cmp_to_key(cmp))      # stable, as numpy's default is on short inputs
 
+    class FInfo(orders.PyStub):
+        eps = 2.220446049250313e-16
+        tiny = 2.2250738585072014e-308
+        smallest_normal = 2.2250738585072014e-308
+        max = 1.7976931348623157e308
+        min = -1.7976931348623157e308
+
     return {
+        'finfo': lambda *a, **k: FInfo(),
         'argsort': argsort,
         'zeros': alloc(0.0), 'ones': alloc(1.0), 'empty': alloc(0.0), 'full': full,
         'zeros_like': like(0.0), 'ones_like': like(1.0), 'empty_like': like(0.0),
